@@ -56,6 +56,9 @@ Definition check_prov (c : Z * Z * list hop) : bool :=
   let '(n, mv, hs) := c in
   let '(s, o) := prun_gen (pinit n mv) (flat_map hop_events hs) in
   forallb (fun x => check_tx o (quiescent s) (fst x)) (p_hist s).
+(* observation and twin in one evaluation *)
+Definition run_prov2 (c : Z * Z * list hop) : prov_obs * bool := (run_prov c, check_prov c).
+Definition prov2_eqb (a b : prov_obs * bool) : bool := prov_eqb (fst a) (fst b) && Bool.eqb (snd a) (snd b).
 (* concurrent stream: responses and report parts only (the requests in the order of their ids) *)
 Definition run_prov_lite (c : Z * Z * list hop) : list (list Z) * list (list Z) :=
   let '(r, p, _, _) := run_prov c in (r, p).
